@@ -57,7 +57,7 @@ Section Sim.
           srb_children cp items [] (t_set m id (blank id k))
                        (lg ++ [EEnter p ky (RObj id) (in_view defs (ONode id k items))]) in
         let v := ONode id k (build erase k items') in
-        (v, t_set m1 id v, lg1)
+        (v, t_set m1 id v, lg1 ++ [EExit p ky id (shallow_items items')])
     end.
   Proof.
     intros. cbn [srb]. destruct (t_get m id); [reflexivity|].
